@@ -3,7 +3,7 @@
    over histories of any length; application half: Procs/Manager.v and Procs/Switchover.v. *)
 From Coq Require Import ZArith NArith Bool List.
 From Mysync Require Import Gtid.Interval Gtid.GtidSet Base.Prog Base.ProgFacts Base.Config
-  Procs.NodeOps Procs.ActiveNodes Procs.Switchover Procs.Manager Proofs.SwitchoverProofs Proofs.ManagerProofs.
+  Procs.NodeOps Procs.ActiveNodes Procs.Switchover Procs.Manager Proofs.SwitchoverProofs Proofs.ManagerProofs Proofs.LockLost.
 From Mysync Require Import Dcs.ZkModel Proofs.ZkProofs.
 Import ListNotations.
 Open Scope Z_scope.
@@ -57,3 +57,11 @@ Print Assumptions C03_no_lock_no_action.
 Theorem C03_switchover_rechecks_lock : forall cfg env sw mem, safe Z lk_step lk_ok 0 (perform_switchover cfg env sw mem).
 Proof. exact switchover_lock_rechecks. Qed.
 Print Assumptions C03_switchover_rechecks_lock.
+
+(* ... and a process whose lock re-check inside a switchover is refused issues NOTHING further in its handling of
+   the request (after the repair 6ae7e63: no failed-attempt record either) - the request is the new manager's *)
+Theorem C03_nothing_after_a_refused_recheck : forall cfg env m cs active master sw tr o,
+  runs (handle_switchover cfg env m cs active master sw) tr o ->
+  forall t1 e t2, tr = t1 ++ e :: t2 -> refused e -> t2 = [].
+Proof. exact nothing_after_a_refused_lock. Qed.
+Print Assumptions C03_nothing_after_a_refused_recheck.
